@@ -111,6 +111,26 @@ func (pc *pathChecker) lookup(st *obs.ODecl, key string, depth int) (string, boo
 	return "", false
 }
 
+// allKeys: every response key carried by the struct, directly or through embedded structs
+func (pc *pathChecker) allKeys(st *obs.ODecl, depth int) []string {
+	if st == nil || depth > 8 {
+		return nil
+	}
+	var out []string
+	for _, f := range st.Fields {
+		if f[0] == "" {
+			out = append(out, pc.allKeys(pc.decl[stripWrappers(f[1])], depth+1)...)
+			continue
+		}
+		tag := strings.Split(f[2], ",")[0]
+		if tag == "-" {
+			tag = pc.em.Premarshal[st.Name][f[0]]
+		}
+		out = append(out, tag)
+	}
+	return out
+}
+
 // check that Go type `goType` (a struct or interface name after stripping wrappers) carries the
 // selection `sels` made on GraphQL type `gqlType`
 func (pc *pathChecker) check(where string, goType string, gqlType string, sels ast.SelectionSet, depth int) {
@@ -136,23 +156,23 @@ func (pc *pathChecker) check(where string, goType string, gqlType string, sels a
 				pc.failf("%s: interface %s has no implementation for GraphQL type %s", where, base, concrete)
 				continue
 			}
-			pc.checkStruct(where+"<"+concrete+">", pc.decl[impl], concrete, sels, depth)
+			pc.checkStruct(where+"<"+concrete+">", pc.decl[impl], concrete, sels, depth, true)
 		}
 	case "struct":
 		def := pc.ex.Schema.Types[gqlType]
 		if def != nil && def.Kind != ast.Object {
 			// `struct: true` (or a flattened fragment on the interface): the shared fields only
 			for _, concrete := range pc.possible(gqlType) {
-				pc.checkStruct(where, d, concrete, sels, depth)
+				pc.checkStruct(where, d, concrete, sels, depth, true)
 				break
 			}
 			return
 		}
-		pc.checkStruct(where, d, gqlType, sels, depth)
+		pc.checkStruct(where, d, gqlType, sels, depth, false)
 	}
 }
 
-func (pc *pathChecker) checkStruct(where string, st *obs.ODecl, concrete string, sels ast.SelectionSet, depth int) {
+func (pc *pathChecker) checkStruct(where string, st *obs.ODecl, concrete string, sels ast.SelectionSet, depth int, abstractPos bool) {
 	if st == nil {
 		pc.failf("%s: no struct generated", where)
 		return
@@ -160,6 +180,13 @@ func (pc *pathChecker) checkStruct(where string, st *obs.ODecl, concrete string,
 	into := map[string][]*ast.Field{}
 	var order []string
 	pc.collect(sels, concrete, into, &order, map[string]bool{})
+	// the converse: the struct carries no response key that the selection does not have (a type
+	// shared with a LARGER selection would) -- `__typename` is added by genqlient itself
+	for _, k := range pc.allKeys(st, 0) {
+		if _, selected := into[k]; !selected && !(k == "__typename" && abstractPos) {
+			pc.failf("%s: Go type %s carries a Go field for response key %q, which the selection made here (on %s) does not have: the type belongs to another selection", where, st.Name, k, concrete)
+		}
+	}
 	for _, k := range order {
 		t, ok := pc.lookup(st, k, 0)
 		if !ok {
